@@ -57,6 +57,11 @@ func (c *checker) determinismSelftest(ph phase, seeds uint64) {
 				continue
 			}
 			if o.Summary == nil {
+				if o.HasLast && o.Exit != 3 && !o.Killed {
+					// a run killed the process (panic / log.Fatal in the code under test): the
+					// explore phase runs the same seeds and reports it with a replay file
+					continue
+				}
 				die2("determinism self-test: engine process ended with exit %d (GOMAXPROCS=%d): %s", o.Exit, gmp, o.Stderr)
 			}
 			for _, l := range o.Lines {
@@ -391,12 +396,13 @@ func toolsimPhases(tier string) map[string]phase {
 	return map[string]phase{
 		"explore": {Name: "explore", Build: "toolsim", TestRun: "^TestVerifToolsim$", Engine: "toolsim", Mode: "explore", BudgetS: sel(40, 720), Workers: 16, Samples: 2},
 		"race":    {Name: "race", Build: "toolsim-race", TestRun: "^TestVerifToolsim$", Engine: "toolsim-free", Mode: "race", BudgetS: sel(12, 180), Workers: 8, GoMaxProcs: 4, SeedOffset: 300_000_000},
+		"binary":  {Name: "binary", Build: "toolsim", TestRun: "^TestVerifToolsim$", Engine: "toolsim-binary", Mode: "binary", Workers: int(sel(6, 16)), MaxSeeds: uint64(sel(2, 12)), SeedOffset: 600_000_000},
 	}
 }
 
 func toolsimPlan() plan {
 	return plan{
-		builds: func(tier string) []string { return []string{"toolsim", "toolsim-race"} },
+		builds: func(tier string) []string { return []string{"toolsim", "toolsim-race", "texel-bin"} },
 		phase: func(name, tier string) (phase, bool) {
 			p, ok := toolsimPhases(tier)[name]
 			return p, ok
@@ -443,6 +449,26 @@ func toolsimPlan() plan {
 			c.racePass = map[string]interface{}{"mode": "free-running main() in a -race build (no scheduler), same workloads and model", "gomaxprocs": 4, "runs": raceRuns,
 				"note": "not schedule-replayable: a report is replayed by re-running its workload up to 32 times"}
 			if c.handle(ph, routs) {
+				return finish(1)
+			}
+			// real-binary cross-check (fidelity of the simulation, not the deciding step): the
+			// un-instrumented tree built with the shipped toolchain, run as a subprocess
+			bp := phs["binary"]
+			bp.Extra = map[string]string{"binary": c.rc.info.Dir + "/texel-verif"}
+			t = time.Now()
+			bouts := c.rc.runPhase(bp)
+			c.notePhase(bp, bouts, time.Since(t).Seconds())
+			var binRuns int64
+			bprobes := Counter{}
+			for _, o := range bouts {
+				if o.Summary != nil {
+					binRuns += o.Summary.Runs
+					bprobes.Merge(o.Summary.Probes)
+				}
+			}
+			c.extraCov["real_binary_cross_check"] = map[string]interface{}{"runs": binRuns, "toolchain": "default go (un-instrumented tree + stub driver file)",
+				"outside_grid_without_ignore_flag_runs": bprobes["binary:outside-grid-without-ignore-flag"]}
+			if c.handle(bp, bouts) {
 				return finish(1)
 			}
 			return finish(0)
